@@ -3,7 +3,7 @@ import re, shutil, glob, importlib, traceback
 from common import *
 
 ALLOWED_AXIOMS = {"propext", "Classical.choice", "Quot.sound"}
-FORBIDDEN = re.compile(r"\b(sorry|admit|native_decide|bv_decide|implemented_by|unsafe )|^axiom |maxHeartbeats 0", re.M)
+FORBIDDEN = re.compile(r"\b(sorry|admit|native_decide|bv_decide|implemented_by)\b|\bunsafe |^axiom |maxHeartbeats 0", re.M)
 PY = "/venv/bin/python"
 
 
